@@ -61,11 +61,16 @@ def lib():
         def getitem_x(self, idx, ctx=None):
             return list(range(len(self.layout)))[idx]
 
-        def getitem_class(self, idx, ctx=None):
-            return self.layout[idx]
-
         def getall_class(self):
+            if LABEL_CONTAINER[0] is not None:
+                # labels stored compactly (image datasets keep uint8 / int8 target arrays)
+                return np.array(self.layout, dtype=getattr(np, LABEL_CONTAINER[0]))
             return list(self.layout)
+
+        def getitem_class(self, idx, ctx=None):
+            if LABEL_CONTAINER[0] is not None:
+                return np.array(self.layout, dtype=getattr(np, LABEL_CONTAINER[0]))[idx]
+            return self.layout[idx]
 
         def getshape_class(self):
             return (3,)
@@ -75,6 +80,7 @@ def lib():
 
 
 REJECT = (AssertionError, NotImplementedError, ValueError)
+LABEL_CONTAINER = [None]  # None: python ints / list; "uint8" / "int8": numpy label storage
 STACKED = [False]  # True: the wrapper under test does not wrap the root dataset but a reversing sub-selection of a larger root
 
 
@@ -126,6 +132,8 @@ class Checker:
     def bad(self, wrapper, what, kwargs, msg, extra=""):
         if STACKED[0]:
             extra += "|stacked"
+        if LABEL_CONTAINER[0]:
+            extra += f"|labels={LABEL_CONTAINER[0]}"
         self.p.violation(f"C03:{wrapper}:{what}{extra}", dict(wrapper=wrapper, layout=self.layout, kwargs=kwargs, stacked=STACKED[0]),
                          f"{wrapper}({kwargs}) on classes {list(self.layout)}: {msg}")
 
@@ -518,13 +526,15 @@ def unlabeled_layouts(maxlen):
 
 def task(args):
     lays, which = args[:2]
-    STACKED[0] = len(args) > 2 and bool(args[2])
+    STACKED[0] = len(args) > 2 and args[2] is True
+    LABEL_CONTAINER[0] = args[2] if len(args) > 2 and isinstance(args[2], str) else None
     p = Partial()
     for lay in lays:
         c = Checker(p, lay)
         for name in which:
             getattr(c, name)()
     STACKED[0] = False
+    LABEL_CONTAINER[0] = None
     p.sample(dict(layout=list(lays[-1]), wrappers=list(which)))
     return p
 
@@ -548,6 +558,9 @@ def run(run):
     big_methods = ("classwise_subset_long", "subset_long", "sort_by_class", "oversampling", "fewshot")
     tasks += [([l], long_methods if len(l) <= 150 else big_methods) for l in longs] + \
              [([l], long_methods, True) for l in longs if len(l) <= 40]
+    # compact label storage on layouts larger than the label dtype's range (350 / 315 samples)
+    cont_methods = ("intra_class_shuffle", "sort_by_class", "fewshot", "oversampling", "classwise_subset_long", "class_filter")
+    tasks += [([l], cont_methods, dt) for l in longs if len(l) > 260 for dt in ("uint8", "int8")][:4]
     tasks.reverse()
     run.pmap(task, tasks)
     run.extra.update(long_layout_lengths=[len(l) for l in longs])
